@@ -201,3 +201,22 @@ def run(F, R):
     R.check(verdict is True, "R34.3", "finish:returns-render-output-unmodified", fin.where(), "return value chain: %s" % " <- ".join(chain),
             "GraphiQLSource::finish post-processes the rendered page (%s): rewriting the escaped output can undo the template's escaping (e.g. turning `&#38;` back "
             "into `&` decodes character references in the <title> a second time)" % " <- ".join(chain))
+
+    R.rule("R34.4", "the generated script is well formed whichever options are set: in the rendering that takes every optional block, no object-literal member follows "
+                    "a closing brace without a comma (`headers: {..}` directly followed by `wsConnectionParams: {..}` is a syntax error that disables the whole page)")
+    full = ""
+    for e in ev:
+        if e[0] == "lit":
+            full += e[1]
+        elif e[0] == "expr":
+            full += "X"
+    scripts = re.findall(r"<script[^>]*type=\"module\"[^>]*>(.*?)</script>", full, re.S) or re.findall(r"<script[^>]*>(.*?)</script>", full, re.S)
+    R.floor("R34.4", "script blocks in the all-options rendering", len(scripts), 1)
+    missing = []
+    for sc in scripts:
+        for m in re.finditer(r"\}\s*\n\s*([A-Za-z_$][\w$]*)\s*:\s*[\{\[\w'\"]", sc):
+            missing.append(m.group(1))
+    R.check(not missing, "R34.4", "script:object-members-comma-separated" + ("" if not missing else ":" + ",".join(sorted(set(missing)))), "templates/graphiql_source.jinja",
+            "no member follows a closing brace without a comma",
+            "in the rendering with every optional block present the member(s) %s follow a `}` without a separating comma: configuring both blocks yields a script that does "
+            "not parse, so none of the configured values is in effect" % sorted(set(missing)))
